@@ -1151,7 +1151,7 @@ func emitTypeSwitchStmt(cb *CodeBuilder, p *typeSwitchStmt, stmts []ast.Stmt) {
 	} else {
 		assign = &ast.ExprStmt{X: x}
 	}
-	cb.emitStmt(&ast.TypeSwitchStmt{Init: checkHeaderStmt(p.init), Assign: assign, Body: body})
+	emitWithPreStmts(cb, p.pre, &ast.TypeSwitchStmt{Init: checkHeaderStmt(p.init), Assign: assign, Body: body})
 }
 
 func emitTypeCaseClause(cb *CodeBuilder, p *typeCaseStmt, body []ast.Stmt) {
